@@ -697,6 +697,15 @@ def stub_cases(rng, thorough=False):
                         ("uint8", [(1, 4096, 2048, 1), (1, 4096, 2049, 1)]), ("int8", [(1, 4096, 4096, 1), (1, 4097, 4096, 1)])):
         for shp in shapes_:
             add("mean", f"product {shp} {dt}", F.mean, shape=shp, axes=(1, 2), dtype=dt)
+    # ranks 2-4 with a unit extent in every position x every non-empty set of reduced axes (the depth-axis rule of
+    # constraint_mean_axis looks at different extents for rank 3 and rank 4)
+    import itertools
+    for shape in ((8, 4), (1, 4), (8, 1), (1, 8, 16), (8, 1, 16), (8, 16, 1), (8, 4, 16), (1, 1, 16), (2, 8, 1),
+                  (1, 8, 8, 4), (1, 1, 8, 4), (1, 8, 1, 4), (1, 8, 8, 1), (2, 8, 8, 4), (2, 1, 8, 4), (2, 8, 8, 1)):
+        for r in range(1, len(shape) + 1):
+            for axes in itertools.combinations(range(len(shape)), r):
+                add("mean_axes", f"shape={shape},axes={axes}", F.mean, shape=shape, axes=axes, dtype="int8")
+                add("mean_axes", f"shape={shape},axes={axes},keep=False", F.mean, shape=shape, axes=axes, dtype="int8", keep=False)
     add("mean", "scalar axis", F.mean, axes=(1,), axis_scalar=True)
     add("mean", "scalar axis depth", F.mean, shape=(1, 1, 1, 4097), axes=(3,), axis_scalar=True)
     add("mean", "keep_dims false", F.mean, keep=False)
@@ -931,3 +940,56 @@ def lean_literal(op):
     outs = ",\n      ".join(tens(t, False) for t in op.outputs)
     return (f"{{ type := {name(op.type.name)}, act := {act},\n    attrs := [{', '.join(attrs)}],\n    inputs := [\n      {ins}],\n"
             f"    outputs := [\n      {outs}] }}")
+
+
+# ------------------------------------------------------------------------------------------------
+# "stays on the CPU unchanged": canonical form of an operator of a TFLite file (plain walker, both sides)
+
+# BuiltinOptions members (schema.fbs numbering) whose slot 0 is a vector of int32 instead of an inline scalar
+_VECTOR_OPTIONS = {17: "ReshapeOptions.new_shape", 30: "SqueezeOptions.squeeze_dims"}
+
+
+def op_records(data):
+    """[{code, outs: [names], canon: str}] for every operator of every subgraph.  `canon` holds everything that
+    must survive when the operator is left on the CPU: builtin/custom code, option table type and content (scalar
+    fields byte for byte, known vector fields resolved), custom options, input and output tensor names in order."""
+    import struct
+
+    import fbwalk
+
+    buf = memoryview(bytes(data))
+    root = fbwalk.Table(buf, struct.unpack_from("<I", buf, 0)[0])
+    codes = []
+    for oc in root.tables(1):
+        codes.append((max(oc.scalar(0, "b"), oc.scalar(3, "i")), oc.string(1) or ""))
+    out = []
+    for sg in root.tables(2):
+        names = [t.string(3) or "" for t in sg.tables(0)]
+        for o in sg.tables(3):
+            code, custom = codes[o.scalar(0, "I")]
+            ins = [names[i] if i >= 0 else "~" for i in (o.vector(1, "i") or [])]
+            outs = [names[i] if i >= 0 else "~" for i in (o.vector(2, "i") or [])]
+            otype = o.scalar(3, "B")
+            fields = []
+            t = o.table(4)
+            if t is not None:
+                # layout independent: a scalar field is the bytes from its offset to the next field (at most 8) with the
+                # zero padding stripped, i.e. its little-endian value whatever order/alignment the writer chose
+                nslots = (t.vt_len - 4) // 2
+                offs = sorted((t._off(sl), sl) for sl in range(nslots) if t._off(sl))
+                size = struct.unpack_from("<H", t.buf, t.vt + 2)[0]
+                for k, (off, slot) in enumerate(offs):
+                    if otype in _VECTOR_OPTIONS and slot == 0:
+                        fields.append((slot, "v" + ".".join(str(v) for v in (t.vector(0, "i") or []))))
+                        continue
+                    end = offs[k + 1][0] if k + 1 < len(offs) else size
+                    b = bytes(t.buf[t.pos + off:t.pos + min(end, off + 8)]).rstrip(b"\x00")
+                    fields.append((slot, b.hex() or "00"))
+                # a field holding its default value may be written or omitted: drop explicit zeros
+                fields = [f"{sl}:{v}" for sl, v in sorted(fields) if v != "00"]
+            co = o.bytes_vec(5)
+            esc = lambda s: s.replace(" ", "_").replace("|", "_")  # noqa: E731
+            canon = "|".join([str(code), esc(custom), str(otype), ",".join(fields) or "-", co.hex() if co else "-",
+                              ",".join(esc(n) for n in ins) or "-", ",".join(esc(n) for n in outs) or "-"])
+            out.append({"code": code, "custom": custom, "outs": outs, "canon": canon})
+    return out
